@@ -293,27 +293,4 @@ theorem foldBytes_ok : ∀ (bytes : Bytes) (st : St) (pos : Nat), Inv st →
     simp only [foldBytes]
     exact ⟨h2.1, noErr_append h1.2 h2.2⟩
 
-theorem afterHit_toks' (h : Hit) (c : UInt8) (tl : Bytes) (j : Nat) : (afterHit h c tl j).toks = h.toks := by
-  unfold afterHit; split <;> rfl
-
-theorem call_ok (st : St) (rest : Bytes) (pos : Nat) (hi : Inv st) : NoErr (call st rest pos).toks := by
-  cases rest with
-  | nil => simp [call, NoErr]
-  | cons c0 tl0 =>
-    cases hs : searchClass st.mode with
-    | none =>
-      simp only [call, hs, afterHit_toks']
-      exact (hit_ok st c0 pos hi).2
-    | some p =>
-      have hpre := search_pre p (c0 :: tl0)
-      simp only [call, hs]
-      generalize search p (c0 :: tl0) = r at hpre
-      obtain ⟨pre, suf⟩ := r
-      simp only at hpre ⊢
-      cases suf with
-      | nil => simp [NoErr]
-      | cons c tl =>
-        simp only [afterHit_toks']
-        exact (hit_ok (accum st pre) c _ (accum_inv st pre p hi hs hpre)).2
-
 end PdfVerif.Lexer
